@@ -144,9 +144,7 @@ func (it *Interp) store(p PtrV, val Value) {
 	if p.O == nil {
 		it.goPanicNilDeref()
 	}
-	if p.O.Frozen && it.inInit == 0 {
-		it.abort("write to init-time object %s after initialisation", p.O.Tag)
-	}
+	it.touch(p.O)
 	if len(p.Path) == 0 {
 		p.O.V = assignInto(p.O.V, val)
 		return
@@ -441,12 +439,7 @@ func (it *Interp) eqTerm(a, b Value) *smt.Term {
 		if x.Concrete() && y.Concrete() {
 			return c.BoolConst(x.S == y.S)
 		}
-		xb, yb := it.strBytes(x), it.strBytes(y)
-		r := c.True
-		for i := range xb {
-			r = c.And(r, c.Eq(xb[i], yb[i]))
-		}
-		return r
+		return it.bytesEqTerm(it.strBytes(x), it.strBytes(y))
 	case PtrV:
 		if b == nil {
 			return c.BoolConst(x.O == nil)
@@ -636,3 +629,64 @@ func (it *Interp) showRec(sb *strings.Builder, v Value, d int) {
 }
 
 func bigFromInt(i int) *big.Int { return big.NewInt(int64(i)) }
+
+// touch is called before an object is mutated. Objects created during package initialisation are shared
+// by all paths of a worker: the first mutation on a path snapshots the object so that it can be restored
+// when the path ends.
+func (it *Interp) touch(o *Obj) {
+	if !o.Frozen || it.inInit > 0 {
+		return
+	}
+	if it.undo == nil {
+		it.undo = map[*Obj]Value{}
+	}
+	if _, ok := it.undo[o]; !ok {
+		it.undo[o] = deepCopy(o.V)
+	}
+}
+
+func (it *Interp) restoreFrozen() {
+	for o, v := range it.undo {
+		o.V = v
+	}
+	it.undo = nil
+}
+
+// bytesEqTerm: equality of two equally long byte strings; aligned big-endian encodings of Ints are compared
+// as Ints (and as canonical scalars when both are reduced mod the group order).
+func (it *Interp) bytesEqTerm(xb, yb []*smt.Term) *smt.Term {
+	c := it.C
+	r := c.True
+	i := 0
+	for i < len(xb) {
+		if xb[i] == yb[i] {
+			i++
+			continue
+		}
+		if it.M != nil && it.M.intBytes != nil {
+			sx, okx := it.M.intBytes[xb[i]]
+			sy, oky := it.M.intBytes[yb[i]]
+			if okx && oky && len(sx.bytes) == len(sy.bytes) && i+len(sx.bytes) <= len(xb) {
+				full := true
+				for k := range sx.bytes {
+					if sx.bytes[k] != xb[i+k] || sy.bytes[k] != yb[i+k] {
+						full = false
+						break
+					}
+				}
+				if full {
+					if it.isReduced(sx.x) && it.isReduced(sy.x) {
+						r = c.And(r, it.scEq(sx.x, sy.x))
+					} else {
+						r = c.And(r, c.Eq(sx.x, sy.x))
+					}
+					i += len(sx.bytes)
+					continue
+				}
+			}
+		}
+		r = c.And(r, c.Eq(xb[i], yb[i]))
+		i++
+	}
+	return r
+}
